@@ -418,6 +418,12 @@ def _r6(ctx):
         ctx.saw(f)
         for ci in [c for c in pkg.classes.values() if c.file == f]:
             for mname, fn in ci.methods.items():
+                # the method with the private helpers it was split into put back (a list built by `self._helper(cols)` is
+                # the list the helper's statements build); _create_species stays the primitive the rule is about
+                try:
+                    fn = pkg.expanded(ci.name, mname, keep=("_create_species",))
+                except (AnalysisError, RecursionError):
+                    pass
                 src = ast.unparse(fn)
                 if "reactants" not in src and "products" not in src:
                     continue
@@ -437,7 +443,7 @@ def _r6(ctx):
     ctx.floor("R6", "reactant/product assignments", n_sites, 13)
     species_truthiness(ctx, "R6")
     # _create_species returns None for pseudo-elements
-    fn = pkg.method("Component", "_create_species")
+    fn = pkg.method("Component", "_create_species") and pkg.expanded("Component", "_create_species")
     ctx.saw("naunet/component.py", "Component._create_species")
     # by paths (any arrangement of the conditions): every path that constructs Species(name) has `name in known_pseudoelements()`
     # false, and on the paths where it is true the function returns None
@@ -465,7 +471,7 @@ def _r6(ctx):
         ctx.check(ok, "R6", "Component._create_species:pseudo-filter", ("naunet/component.py", fn.lineno),
                   "Species(..) is constructed only for names not in Species.known_pseudoelements(); otherwise None is returned")
     # the list consulted is the CONFIGURED pseudo-element list whenever any list was configured
-    kp = pkg.method("Species", "known_pseudoelements")
+    kp = pkg.method("Species", "known_pseudoelements") and pkg.expanded("Species", "known_pseudoelements")
     ctx.saw("naunet/species.py", "Species.known_pseudoelements")
     kfl = Flow(kp, "naunet/species.py")
     CLS = ("param", "cls")
